@@ -23,6 +23,14 @@ def run(ctx):
     NV = 120 if ctx.quick() else 2500
     valid = [xzgen.gen_valid_xz(rng, 1500 if ctx.quick() else 20000) for _ in range(NV)]
     valid += [xzgen.gen_wrap_reset_xz(rng) for _ in range(6 if ctx.quick() else 60)]
+    # instruction-dense data behind each branch/call/jump filter (convertible instructions up to the very end of the data)
+    import lzma as _lz
+    from props.c15 import gen_code
+    BCJF = {'x86': _lz.FILTER_X86, 'arm': _lz.FILTER_ARM, 'armthumb': _lz.FILTER_ARMTHUMB, 'powerpc': _lz.FILTER_POWERPC, 'sparc': _lz.FILTER_SPARC, 'ia64': _lz.FILTER_IA64}
+    for arch, fid in BCJF.items():
+        for _k in range(2 if ctx.quick() else 30):
+            cd = gen_code(rng, arch, rng.choice([37, 300, 3001, rng.randrange(16, 5000)]))
+            valid.append((_lz.compress(cd, format=_lz.FORMAT_XZ, check=rng.choice([_lz.CHECK_CRC32, _lz.CHECK_CRC64, _lz.CHECK_NONE]), filters=[{'id': fid}, {'id': _lz.FILTER_LZMA2, 'dict_size': 4096}]), cd, '%s-code' % arch))
     for nb in ([127, 128, 131] if ctx.quick() else [127, 128, 129, 300, 2000, 16383, 16384, 16400]):   # Number of Records needs 1, 2, 3 bytes
         mb, mexp, _il = xzgen.gen_many_blocks(rng, nb); valid.append((mb, mexp, 'many-blocks:%d' % nb))
     blobs, meta = [], []
@@ -39,15 +47,16 @@ def run(ctx):
     impl, fails = impl_dec(drv, 0, LZMA_CONCATENATED, 0, 0, blobs)
     impl3, fails3 = impl_dec(drv, 0, LZMA_CONCATENATED, 3, lambda i: i * 7 + 1, blobs)
     impl1, fails1 = impl_dec(drv, 0, LZMA_CONCATENATED, 1, 0, blobs)   # one input byte per call: a call boundary inside every field
+    impl2, fails2 = impl_dec(drv, 0, LZMA_CONCATENATED, 2, 0, blobs)   # one output byte per call
     mism = []
     kinds = {}
-    for f in fails + fails3 + fails1:
+    for f in fails + fails3 + fails1 + fails2:
         ctx.violation('decoder crashed / sanitizer report on input', {'line': (f[0] or '')[:100000], 'stderr': f[1], 'rc': f[2], 'kind': 'sanitizer'})
     n_eval = 0
     distinct = set()
-    for b, (kind, d, e), s, i, i3, i1 in zip(blobs, meta, spec, impl, impl3, impl1):
-        if i is None or i3 is None or i1 is None: continue
-        n_eval += 3
+    for b, (kind, d, e), s, i, i3, i1, i2 in zip(blobs, meta, spec, impl, impl3, impl1, impl2):
+        if i is None or i3 is None or i1 is None or i2 is None: continue
+        n_eval += 4
         st, used, out = s
         kinds[st] = kinds.get(st, 0) + 1
         distinct.add((kind.split('@')[0], st, len(b) // 64))
@@ -58,7 +67,7 @@ def run(ctx):
             why = 'SPEC rejects or mis-decodes a file the generator built as valid (spec %s)' % st
         elif st == 'fuel':
             why = 'spec out of fuel'
-        for tag, r in (('one-shot', i), ('sliced', i3), ('byte-wise', i1)):
+        for tag, r in (('one-shot', i), ('sliced', i3), ('byte-wise', i1), ('one output byte per call', i2)):
             ret, tin, tout, calls, o = r
             if not same_verdict(st, ret):
                 why = why or '%s: lzma_stream_decoder returned %d, the specification says %s' % (tag, ret, st)
